@@ -5,88 +5,105 @@ import NLV.Generated.Events
 # C09 — the event stream of the child is well formed
 
 Theorems over model D1 (`NLV/Model/Trace.lean`) for **every** label list, i.e. every interleaving of threads and tasks and
-every sequence of their actions, including aborts at any nesting level and entities that never finish: the emitted stream
-is accepted by the grammar `Reg.wrun` the registrars of the main process rely on (C11), the numbers are handed out in
-order, the output only grows, an abort unwinds innermost first, and every event class carries the run number.
+every sequence of their actions — including the hidden number-drawing steps, exceptions unwinding at any nesting level and
+entities that never finish: the emitted stream is accepted by the grammar `Reg.wrun` the registrars of the main process
+rely on (C11); trace, trace-call and prompt numbers are unique in the run and increase within each trace; the output only
+grows, by at most one event per step; an exception unwinds innermost first; every event class carries the run number.
 
-The case analysis of `step` (`step_cases`, `Local`), the simulation invariant relating the phases of all traces to the
-grammar state reached by `wrun {} s.out` (`Sim`, `WInv`) and the counter invariant (`NumInv`) live in
-`NLV/Lemmas/Trace.lean`.
+Numbers are *drawn* atomically but *emitted* in a later step, so the order in which numbers appear in the stream is not
+the order in which they were drawn (`stream_order_is_not_number_order`): the property does not ask for that, and the
+code does not provide it.
 -/
 namespace NLV.C09
 open NLV.Trace
 open NLV.Reg hiding St step   -- `St`, `step` are those of model D1 (`NLV.Trace`)
 
-/-- for every interleaving of entities and every sequence of their actions (including aborts at any nesting level and
-entities that never finish), the emitted stream is accepted by the grammar the main process relies on: per trace
-start-trace, trace calls each optionally containing one command loop holding prompt start/end pairs, end-trace; every
-start has its matching end with the same numbers; nothing for a trace before its start or after its end -/
+/-- for every interleaving of entities and every sequence of their actions, the emitted stream is accepted by the grammar
+the main process relies on: per trace start-trace, trace calls each optionally containing one command loop holding prompt
+start/end pairs, end-trace; every start has its matching end with the same numbers; nothing for a trace before its start
+or after its end -/
 theorem stream_wf (ls : List (Ent × Act)) (s : St) (h : run {} ls = some s) : (wrun {} s.out).isSome = true := by
   obtain ⟨w, hw, _⟩ := (inv_of_run h).w
   rw [hw]; rfl
 
-/-- trace numbers are handed out 1, 2, 3, … in start order; trace-call numbers and prompt numbers are strictly increasing
-over the whole run (hence unique in the run and increasing within each trace) -/
+/-- trace, trace-call and prompt numbers are unique within the run, and trace-call and prompt numbers increase within each
+trace (a trace has one trace number) -/
 theorem numbers_unique_increasing (ls : List (Ent × Act)) (s : St) (h : run {} ls = some s) :
-    traceNos s.out = (List.range (traceNos s.out).length).map (· + 1) ∧
-    (callNos s.out).Pairwise (· < ·) ∧ (promptNos s.out).Pairwise (· < ·) := by
+    (traceNos s.out).Nodup ∧ (callNos s.out).Nodup ∧ (promptNos s.out).Nodup ∧
+    (∀ t, (callNosOf t s.out).Pairwise (· < ·)) ∧ (∀ t, (promptNosOf t s.out).Pairwise (· < ·)) :=
   have hn := (inv_of_run h).num
-  refine ⟨?_, hn.callInc, hn.prInc⟩
-  have hl : (traceNos s.out).length = s.nextTrace - 1 := by rw [hn.tr]; simp
-  rw [hl]; exact hn.tr
+  ⟨hn.trND, hn.call.nd, hn.prompt.nd, hn.call.inc, hn.prompt.inc⟩
 
-/-- the output only grows: an action never retracts an emitted event -/
-theorem output_monotone (s : St) (e : Ent) (a : Act) (s' : St) (h : step s e a = some s') : s.out <+: s'.out := by
-  rcases step_cases h with hl | ⟨_, _, hl⟩ | ⟨rfl, _⟩ | ⟨rfl, _⟩ | ⟨tr, text, _, _, rfl⟩
-  · obtain ⟨tr, ph', en', evs, nc', np', _, _, rfl⟩ := hl
-    exact List.prefix_append _ _
-  · obtain ⟨tr, ph', en', evs, nc', np', _, _, rfl⟩ := hl
-    show s.out <+: (addTrace s e).out ++ evs
-    rw [addTrace_out, List.append_assoc]
-    exact List.prefix_append _ _
-  · exact List.prefix_refl _
-  · exact List.prefix_refl _
-  · exact List.prefix_append _ _
+/-- the counters hand out 1, 2, 3, …: the traces, in the order in which their numbers were drawn, are numbered consecutively -/
+theorem numbers_drawn_in_order (ls : List (Ent × Act)) (s : St) (h : run {} ls = some s) :
+    s.traces.map (·.traceNo) = (List.range s.traces.length).map (· + 1) :=
+  (inv_of_run h).tr.seq
 
-/-- an abort (KeyboardInterrupt delivered into a prompt, BdbQuit, …) closes everything that is open, innermost first, and
-leaves the trace idle -/
-theorem abort_unwinds (s : St) (e : Ent) (s' : St) (tr : TraceSt) (hf : findTrace s.traces e = some tr)
-    (h : step s e Act.abort = some s') :
-    newEvents s s' = unwind tr.traceNo tr.phase ∧ tr.phase ≠ Phase.idle ∧
-    ∃ tr', findTrace s'.traces e = some tr' ∧ tr'.phase = Phase.idle ∧ tr'.traceNo = tr.traceNo := by
-  obtain ⟨_, he, hl⟩ := findTrace_some hf
-  have key : tr.phase ≠ Phase.idle ∧
-      s' = { s with traces := setTrace s.traces { tr with phase := .idle }, out := s.out ++ unwind tr.traceNo tr.phase } := by
-    simp only [step, hf] at h
-    cases hph : tr.phase <;> rw [hph] at h <;> simp only [Option.some.injEq, reduceCtorEq] at h
-    all_goals exact ⟨by simp, h.symm⟩
-  obtain ⟨hne, rfl⟩ := key
-  refine ⟨?_, hne, { tr with phase := .idle }, ?_, rfl, rfl⟩
-  · simp [newEvents]
-  · exact findTrace_setTrace_self hf he hl rfl
+/-- … but the stream need not show them in that order: two threads draw trace numbers 1 and 2 and the second emits first;
+likewise for trace-call numbers -/
+theorem stream_order_is_not_number_order :
+    (∃ ls s, run {} ls = some s ∧ traceNos s.out = [2, 1]) ∧ (∃ ls s, run {} ls = some s ∧ callNos s.out = [2, 1]) := by
+  constructor
+  · exact ⟨[(⟨1, none⟩, .drawIds), (⟨2, none⟩, .drawIds), (⟨1, none⟩, .drawTrace), (⟨2, none⟩, .drawTrace),
+      (⟨2, none⟩, .emitStart), (⟨1, none⟩, .emitStart)], exists_run_of_map (f := fun s => traceNos s.out) (by decide)⟩
+  · exact ⟨[(⟨1, none⟩, .drawIds), (⟨2, none⟩, .drawIds), (⟨1, none⟩, .drawTrace), (⟨2, none⟩, .drawTrace),
+      (⟨1, none⟩, .emitStart), (⟨2, none⟩, .emitStart), (⟨1, none⟩, .drawCall 10 1 100 0), (⟨2, none⟩, .drawCall 11 1 200 0),
+      (⟨2, none⟩, .emitCall), (⟨1, none⟩, .emitCall)], exists_run_of_map (f := fun s => callNos s.out) (by decide)⟩
+
+/-- the output only grows: an action never retracts an emitted event, and adds at most one -/
+theorem output_monotone (s : St) (e : Ent) (a : Act) (s' : St) (h : step s e a = some s') :
+    s.out <+: s'.out ∧ (newEvents s s').length ≤ 1 := by
+  obtain ⟨evs, ho, hlen, _⟩ := step_out h
+  rw [newEvents_of_out ho]
+  exact ⟨⟨evs, ho.symm⟩, hlen⟩
+
+/-- the number-drawing steps emit nothing: an observer of the stream does not see them -/
+theorem hidden_silent (s : St) (e : Ent) (a : Act) (s' : St) (h : step s e a = some s') (ha : a.hidden = true) :
+    s'.out = s.out := by
+  obtain ⟨evs, ho, _, hh, _⟩ := step_out h
+  rw [ho, hh ha, List.append_nil]
+
+/-- an exception (KeyboardInterrupt delivered into a prompt, BdbQuit, …) closes everything that is open, innermost first, one
+event per step, and leaves the trace idle -/
+theorem abort_unwinds (ls : List (Ent × Act)) (s : St) (hr : run {} ls = some s) (e : Ent) (tr : TraceSt)
+    (hf : findTrace s.traces e = some tr) (ho : tr.phase.isOpen = true) :
+    ∃ s', run s ((unwindActs tr.phase).map fun a => (e, a)) = some s' ∧
+      newEvents s s' = unwind tr.traceNo tr.phase ∧
+      ∃ tr', findTrace s'.traces e = some tr' ∧ tr'.phase = Phase.idle ∧ tr'.traceNo = tr.traceNo := by
+  have _ := hr
+  obtain ⟨s', hr', ho', hf'⟩ := unwind_run hf ho
+  exact ⟨s', hr', newEvents_of_out ho', _, hf', rfl, rfl⟩
 
 /-- every event class carries the run's number (from the generated field table) -/
 theorem every_event_has_run_no : ∀ e ∈ NLV.Generated.Events.fields, "run_no" ∈ e.2 := by decide
 
 /-! ## non-vacuity: concrete runs -/
 
-/-- a thread (entity 1) and a task of another thread (entity 2) interleaved: both stop at a prompt; the task is aborted at
-its prompt, the thread answers with a resuming command; both finish -/
+/-- a thread (entity 1) and a task of another thread (entity 2) interleaved, the task's numbers drawn first but emitted
+second; both stop at a prompt; the task is interrupted at its prompt, the thread answers; both finish -/
 def demo : List (Ent × Act) :=
-  [(⟨1, none⟩, .enter 10 1 100 0), (⟨2, some 7⟩, .enter 11 5 200 0), (⟨1, none⟩, .stop), (⟨2, some 7⟩, .stop),
-   (⟨2, some 7⟩, .prompt 3), (⟨1, none⟩, .prompt 4), (⟨1, none⟩, .write 9), (⟨2, some 7⟩, .abort),
-   (⟨1, none⟩, .answer 5 true), (⟨1, none⟩, .leave), (⟨2, some 7⟩, .finish), (⟨1, none⟩, .finish)]
+  [(⟨2, some 7⟩, .drawIds), (⟨1, none⟩, .drawIds), (⟨2, some 7⟩, .drawTrace), (⟨1, none⟩, .drawTrace),
+   (⟨1, none⟩, .emitStart), (⟨2, some 7⟩, .emitStart),
+   (⟨1, none⟩, .drawCall 10 1 100 0), (⟨2, some 7⟩, .drawCall 11 5 200 0), (⟨2, some 7⟩, .emitCall), (⟨1, none⟩, .emitCall),
+   (⟨1, none⟩, .stop), (⟨2, some 7⟩, .stop), (⟨2, some 7⟩, .drawPrompt), (⟨1, none⟩, .drawPrompt),
+   (⟨2, some 7⟩, .emitPrompt 3), (⟨1, none⟩, .emitPrompt 4), (⟨1, none⟩, .write 9),
+   (⟨2, some 7⟩, .answer 0), (⟨1, none⟩, .answer 5), (⟨2, some 7⟩, .endLoop), (⟨1, none⟩, .endLoop), (⟨2, some 7⟩, .leave),
+   (⟨1, none⟩, .leave), (⟨2, some 7⟩, .finish), (⟨1, none⟩, .finish)]
 
 example : ((run {} demo).map fun s => s.out.length) = some 17 := by decide
 example : ((run {} demo).bind fun s => wrun {} s.out).isSome = true := by decide
-example : ((run {} demo).map fun s => (traceNos s.out, callNos s.out, promptNos s.out)) = some ([1, 2], [1, 2], [1, 2]) := by
+example : ((run {} demo).map fun s => (traceNos s.out, callNos s.out, promptNos s.out)) = some ([2, 1], [2, 1], [1, 2]) := by
   decide
-/-- the abort at the prompt emitted end-prompt, end-cmdloop, end-trace-call of trace 2, in this order -/
-example : ((run {} (demo.take 7)).bind fun s => (step s ⟨2, some 7⟩ .abort).map fun s' => newEvents s s') =
-    some [.endPrompt 2 1 0, .endCmdloop 2 2, .endCall 2 2] := by decide
 /-- an entity that never finishes: the killed prefix is still accepted -/
-example : ((run {} (demo.take 6)).bind fun s => wrun {} s.out).isSome = true := by decide
+example : ((run {} (demo.take 16)).bind fun s => wrun {} s.out).isSome = true := by decide
 /-- a nested trace call within one trace is not a run of the model -/
-example : run {} [(⟨1, none⟩, .enter 10 1 100 0), (⟨1, none⟩, .enter 10 2 100 0)] = none := by decide
+example : run {} [(⟨1, none⟩, .drawIds), (⟨1, none⟩, .drawTrace), (⟨1, none⟩, .emitStart), (⟨1, none⟩, .drawCall 10 1 100 0),
+    (⟨1, none⟩, .drawCall 10 2 100 0)] = none := by decide
+/-- unwinding from an open prompt: end-prompt (empty command), end-cmdloop, end-trace-call of trace 1 (entity 2), in this
+order.  (Expectation corrected: the task's trace call carries call number 2 — the thread drew call number 1 first, see
+`callNos = [2, 1]` above — so the phase is `.prompt ⟨2, …⟩ 1` and the end events carry call number 2, not 1.) -/
+example : ((run {} (demo.take 17)).bind fun s =>
+    (run s ((unwindActs (.prompt ⟨2, 11, 5, 200, 0⟩ 1)).map fun a => (⟨2, some 7⟩, a))).map fun s' => newEvents s s') =
+    some [.endPrompt 1 1 0, .endCmdloop 1 2, .endCall 1 2] := by decide
 
 end NLV.C09
